@@ -2,7 +2,7 @@ use crate::environment::{Environment, EnvironmentError};
 use quiver_compiler::Compiler;
 use quiver_compiler::ModuleResolver;
 use quiver_compiler::compiler::{
-    Binding, ModuleCache, Scope, ScopeKind, resolve_type_alias_for_display,
+    Binding, ModuleCache, Provenance, Scope, ScopeKind, resolve_type_alias_for_display,
 };
 use quiver_core::bytecode::Function;
 use quiver_core::effects::Effect;
@@ -139,7 +139,15 @@ impl<E: Effect> Repl<E> {
             .cloned()
             .unwrap_or_else(Type::nil);
 
-        // Update REPL state
+        // Update REPL state. A binding that remembers it came from this line's parameter (`=s`,
+        // `x = ~`) must forget that: the next line's parameter is another value, and a type test of
+        // it would narrow this variable too.
+        let mut bindings = bindings;
+        for binding in bindings.values_mut() {
+            if let Binding::Variable { provenance, .. } = binding {
+                *provenance = without_parameter(std::mem::replace(provenance, Provenance::Unknown));
+            }
+        }
         self.bindings = bindings;
         self.module_cache = module_cache;
         // A line with no executable code (type definitions only) does not resume the process, so
@@ -354,5 +362,20 @@ impl<E: Effect> Repl<E> {
     /// Get the type of the last evaluated result
     pub fn get_last_result_type(&self) -> &Type {
         &self.last_result_type
+    }
+}
+
+/// `provenance` with every trace of the line's parameter replaced by `Unknown`.
+fn without_parameter(provenance: Provenance) -> Provenance {
+    match provenance {
+        Provenance::Parameter => Provenance::Unknown,
+        Provenance::Field(inner, index) => match without_parameter(*inner) {
+            Provenance::Unknown => Provenance::Unknown,
+            inner => Provenance::Field(Box::new(inner), index),
+        },
+        Provenance::Tuple(fields) => {
+            Provenance::Tuple(fields.into_iter().map(without_parameter).collect())
+        }
+        other => other,
     }
 }
